@@ -74,9 +74,9 @@ def build(drv, tags='verif', race=False):
     if REPO != '/repo':
         suffix = '-' + hashlib.sha1(REPO.encode()).hexdigest()[:8]
     out = os.path.join(BUILD, 'vh-%s%s%s' % (drv, '-race' if race else '', suffix))
+    harness = HARNESS
     lock = open(os.path.join(BUILD, '.lock' + suffix), 'w')
     fcntl.flock(lock, fcntl.LOCK_EX)
-    harness = HARNESS
     try:
         if REPO != '/repo':
             # mutation runs (VERIF_REPO=<worktree>): build from a private copy of the harness so that
@@ -86,18 +86,20 @@ def build(drv, tags='verif', race=False):
         sys.path.insert(0, os.path.join(VERIF, 'lib'))
         import gomod
         gomod.gen(REPO, harness)
-        cmd = ['go', 'build', '-tags', tags]
-        if race:
-            cmd.append('-race')
-        cmd += ['-o', out, './drv/' + drv]
-        t0 = time.time()
-        rc, o = sh(cmd, cwd=harness, timeout=1500)
-        if rc != 0:
-            raise Broken('harness build failed for %s:\n%s' % (drv, o[-6000:]))
-        log('[build] vh-%s in %.1fs' % (drv, time.time() - t0))
     finally:
         fcntl.flock(lock, fcntl.LOCK_UN)
         lock.close()
+    cmd = ['go', 'build', '-tags', tags]
+    if race:
+        cmd.append('-race')
+    tmp_out = out + '.tmp%d' % os.getpid()
+    cmd += ['-o', tmp_out, './drv/' + drv]
+    t0 = time.time()
+    rc, o = sh(cmd, cwd=harness, timeout=1800)
+    if rc != 0:
+        raise Broken('harness build failed for %s:\n%s' % (drv, o[-6000:]))
+    os.replace(tmp_out, out)
+    log('[build] vh-%s in %.1fs' % (drv, time.time() - t0))
     return out
 
 
